@@ -372,6 +372,28 @@ example : (2 : Nat) ≤ 3 ∧ ((1 : Int) ≤ (3 : Nat)) ∧ msdCounts [(0, 0), (
   revert this
   decide
 
+/-- **ensemble_identical (anything computed from the MSD curve)** (ext).  `ensemble_ols` works on the points
+    `(lag, ensemble msd)` and takes `number of lags + 1` for the track length.  For `k ≥ 2` identical tracks these are
+    exactly the points `(lag, msd)` of the single track and its number of lags.  So whatever is computed from them — the OLS
+    line for an explicit `max_lag`; for `max_lag=None` the number of lags `determine_optimal_points` arrives at (outside the
+    model: non-rational powers) and the OLS line through that many points — is what the same computation gives on the
+    single-track curve with track length `lags + 1`; for a track without missing frames (lags `1 … N−1`) that is its number
+    of points `N`, the length the single-track estimate uses.  (With missing frames `lags + 1` is in general not `N`:
+    second example below; there the library warns that the automatic number of lags is unreliable and the check does not
+    assert the relation for `max_lag=None`.) -/
+theorem ensemble_identical_curve {β : Type} (F : List (Int × Rat) → Nat → β) (t : List Pt) (L : Option Int)
+    (k : Nat) (hk : 2 ≤ k) (hne : msdCounts t L ≠ []) :
+    ∃ rows, ensembleMsd (List.replicate k t) L 2 = .ok rows ∧
+      F (rows.map fun r => (r.lag, r.st.mean)) (rows.length + 1) =
+        F ((msdCounts t L).map fun r => (r.lag, r.msd)) ((msdCounts t L).length + 1) := by
+  refine ⟨_, ensemble_identical_msd t L k hk 2 (by exact_mod_cast hk) hne, ?_⟩
+  simp only [List.map_map, List.length_map, Function.comp_def]
+
+/-- non-vacuity, and the track length `lags + 1`: the number of points of a track without missing frames … -/
+example : (msdCounts [(4, 0), (5, 1), (6, 3), (7, 2), (8, 5)] none).length + 1 = 5 := by decide +kernel
+/-- … but not of a track with missing frames (5 points on frames 0,1,2,3,5: lags 1..5). -/
+example : (msdCounts [(0, 0), (1, 1), (2, 3), (3, 2), (5, 5)] none).length + 1 = 6 := by decide +kernel
+
 /-- **ensemble_identical (CVE).** The ensemble CVE of `k ≥ 2` copies of a track returns that track's diffusion
     constant and localisation variance, with zero ensemble variance and `k·N` points. -/
 theorem ensemble_identical_cve (t : List Pt) (dt R : Rat) (k : Nat) (hk : 2 ≤ k) (hn : 3 ≤ t.length)
